@@ -67,7 +67,7 @@ inductive Obs where
 inductive Stim where
   | api (g : Nat) (op : R.OpKind) (name : String) (prog : Bool)
   /-- `CallProgressive` with a scripted `sendProg`: the first chunk at once (`progress: true` iff the
-      script is not empty), then one script step per further call: (delay ms, chunk | final | err | ctx);
+      script is not empty), then one script step per further call: (delay ms, chunk | final | unset | err | ctx);
       `ctx` = wait for the caller's context to end and return its error. -/
   | apiProg (g : Nat) (name : String) (prog : Bool) (script : List (Nat × String))
   | router (m : RMsg)
@@ -146,7 +146,7 @@ def iStep (cfg : Cfg) (s : S) (ev : I.Ev) : Option S :=
   (I.step cfg.i s.i ev).map (harvestI cfg s)
 
 def pStep (cfg : Cfg) (s : S) (ev : P.Ev) : Option S :=
-  (P.step cfg.p s.p ev).map fun p' =>
+  (P.step { cfg.p with cancelMode := cfg.r.cancelMode } s.p ev).map fun p' =>
     let new := p'.out.take (p'.out.length - s.p.out.length)
     let now := s.r.now
     let s := { s with p := p', log := new.map (fun o => (now, Obs.p o)) ++ s.log }
@@ -222,7 +222,8 @@ def fire (cfg : Cfg) (s : S) (d : Due) : S :=
       let s := { s with waitCtx := s.waitCtx.filter (fun p => p.1 != w) }
       (iStep cfg s (.handlerReturn w r false)).getD s
     | .pull g kind =>
-      let p : P.Pull := if kind == "chunk" then .chunk true else if kind == "err" then .err false else .chunk false
+      let p : P.Pull := if kind == "chunk" then .chunk true else if kind == "err" then .err false
+        else if kind == "unset" then .noFlag else .chunk false
       (pStep cfg s (.pulled g p)).getD s
 
 /-- Application code (scripted) whose return is due now. -/
